@@ -406,6 +406,42 @@ struct DispatchSim : Sim {
                                     strfmt("%s: after the resolver ran the slot holds %s, not an implementation entry point", en.name.c_str(), tsym.c_str()));
                         return;
                 }
+                // the bound symbol must be an implementation of *this* entry point: its name is the entry's name plus family words only
+                // (a flush slot bound to a submit routine of the right family passes every instruction-set test)
+                {
+                        auto toks = [](const std::string &s) {
+                                std::vector<std::string> v;
+                                std::string cur;
+                                for (char ch : s) {
+                                        if (ch == '_') {
+                                                if (!cur.empty())
+                                                        v.push_back(cur);
+                                                cur.clear();
+                                        } else
+                                                cur += ch;
+                                }
+                                if (!cur.empty())
+                                        v.push_back(cur);
+                                return v;
+                        };
+                        static const std::set<std::string> famwords = { "base", "sse", "sse4", "sb", "avx", "avx2", "avx512", "ni", "gen2", "gen4", "vaes", "x4", "x8", "00", "04", "aesni" };
+                        std::vector<std::string> et = toks(en.name), tt = toks(tname);
+                        std::multiset<std::string> extra(tt.begin(), tt.end());
+                        bool ok = true;
+                        for (auto &w : et) {
+                                auto f = extra.find(w);
+                                if (f == extra.end())
+                                        ok = false;
+                                else
+                                        extra.erase(f);
+                        }
+                        for (auto &w : extra)
+                                if (!famwords.count(w))
+                                        ok = false;
+                        if (!ok)
+                                e.violation("C12", "wrong-role", "C12/wrong-role/" + en.name,
+                                            strfmt("%s binds to %s, which is not an implementation of that entry point, on [%s]", en.name.c_str(), tname.c_str(), cpu.str().c_str()));
+                }
                 auto it = g_need.find(tname);
                 if (it == g_need.end()) {
                         e.violation("C12", "unknown-target", "C12/unknown-target/" + en.name,
